@@ -139,7 +139,16 @@ impl MultiExecMatcher {
         args: &[&str],
         exec_in_parent_dir: bool,
     ) -> Result<Self, Box<dyn Error>> {
-        let transformed_args = args.iter().map(OsString::from).collect();
+        let transformed_args: Vec<OsString> = args.iter().map(OsString::from).collect();
+
+        // The fixed arguments are part of every invocation: when they do not
+        // fit on a command line, none can be built.
+        let mut probe = argmax::Command::new(executable);
+        if probe.try_args(&transformed_args).is_err() {
+            return Err(From::from(format!(
+                "The arguments of {executable} do not fit within the limit for a command line"
+            )));
+        }
 
         Ok(Self {
             executable: executable.to_string(),
@@ -151,7 +160,9 @@ impl MultiExecMatcher {
 
     fn new_command(&self) -> argmax::Command {
         let mut command = argmax::Command::new(&self.executable);
-        command.try_args(&self.args).unwrap();
+        // (checked when the expression was parsed; a path that does not fit
+        // behind them is reported by the caller)
+        let _ = command.try_args(&self.args);
         command
     }
 
